@@ -23,7 +23,7 @@ DIAGRAMS = ["pithist", "obsfcst", "timeseries", "meteo", "qq", "autocorr", "auto
 AXES = [None, "time", "leadtime", "year", "month", "week", "day", "timeofday", "dayofyear", "monthofyear",
         "dayofmonth", "location", "elev", "lat", "lon", "threshold", "leadtimeday", "no", "obs", "fcst"]
 TYPES = ["plot", "text", "csv", "map", "rank", "maprank", "impact", "mapimpact"]
-VARIANTS = ["none", "r1", "r3", "q2", "r1q1", "b_within", "agg_median", "b_below_eq", "r1_within", "q1"]
+VARIANTS = ["none", "r1", "r3", "q2", "r1q1", "b_within", "agg_median", "b_below_eq", "r1_within", "q1", "agg_min", "agg_range", "agg_iqr", "agg_q", "agg_count"]
 SHAPES = ["prob2", "single", "allmiss", "det1"]
 
 
@@ -52,6 +52,14 @@ def build_shape(shape, workdir, seed):
         ds = gen.make_dataset(rng, n_inputs=2, fmt="text", prob=True, ens=True, pit=True, miss=0.05, sparse=0.0,
                               thresholds=[0.0, 5.0, 10.0], quantiles=[0.1, 0.5, 0.9], same_dims=True)
         inp = ds["inputs"][0]
+        # one location without any observation as well
+        s0 = gen.fnum(inp["locs"][-1][0])
+        for k, c in ds["inputs"][1]["cells"].items():
+            if k.split("|")[2] == s0:
+                c["obs"] = None
+        for k, c in inp["cells"].items():
+            if k.split("|")[2] == s0:
+                c["obs"] = None
         l0 = inp["leadtimes"][-1]
         for k, c in inp["cells"].items():
             if k.split("|")[1] == gen.fnum(l0):
@@ -70,7 +78,8 @@ def variant_args(v):
     return {"none": [], "r1": ["-r", "5"], "r3": ["-r", "0,5,10"], "q2": ["-q", "0.1,0.9"],
             "r1q1": ["-r", "5", "-q", "0.5"], "b_within": ["-r", "0,5,10", "-b", "within"],
             "agg_median": ["-agg", "median"], "b_below_eq": ["-r", "5", "-b", "below="],
-            "r1_within": ["-r", "5", "-b", "within="], "q1": ["-q", "0.5"]}[v]
+            "r1_within": ["-r", "5", "-b", "within="], "q1": ["-q", "0.5"], "agg_min": ["-agg", "min"],
+            "agg_range": ["-agg", "range"], "agg_iqr": ["-agg", "iqr"], "agg_q": ["-agg", "0.9"], "agg_count": ["-agg", "count"]}[v]
 
 
 def all_combos(metrics, tier):
@@ -81,7 +90,7 @@ def all_combos(metrics, tier):
             for m in names:
                 for ax in AXES:
                     for ty in TYPES:
-                        for v in (["none", "r1", "r3"] if sh != "prob2" else VARIANTS):
+                        for v in (["none", "r1", "r3", "agg_min", "agg_q"] if sh != "prob2" else VARIANTS):
                             combos.append((m, ax, ty, v, sh))
     else:
         for m in names:
@@ -98,6 +107,11 @@ def all_combos(metrics, tier):
             for v in VARIANTS[3:]:
                 combos.append((m, None, "plot", v, "prob2"))
                 combos.append((m, "no", "text", v, "prob2"))
+            # slices without any valid case, under every kind of aggregator
+            for v in ("agg_min", "agg_range", "agg_iqr", "agg_q", "agg_count", "agg_median"):
+                for ax in ("location", "leadtime"):
+                    combos.append((m, ax, "csv", v, "allmiss"))
+                combos.append((m, None, "map", v, "allmiss"))
     return combos
 
 
